@@ -156,7 +156,8 @@ Variable lo : Z.          (* every position of the run lies in the window [lo, l
 (* a slot whose positive length word has been written *)
 Definition committed (cp : Z) (prods : list pstate) (s : slot) : Prop :=
   0 < s_len s /\
-  ((s_type s = PAD /\ s_len s = s_span s /\ s_body s = [] /\ (s_pos s + s_span s) mod cp = 0 /\ s_seq s < 0) \/
+  ((* a padding record (written by a wrapping claim, or by unblock over dead claims) *)
+   (s_type s = PAD /\ s_span s = align (s_len s) 8 /\ s_seq s < 0) \/
    (* a command written before the threads were started (owner 0) *)
    (s_owner s = 0 /\ s_seq s = 0 /\ valid_cmd (s_type s) = true /\ s_len s = rl_of (s_body s) /\ s_span s = rq_of (s_body s)) \/
    (exists i ps, s_owner s = Z.of_nat (S i) /\ nth_error prods i = Some ps /\ 0 <= s_seq s /\
@@ -647,9 +648,8 @@ Proof.
     + intros s. unfold expect at 1. rewrite Aw1, Epc. cbn [In]. intros [<- | [<- | []]] Hne; [exfalso; apply Hne; reflexivity |].
       unfold expect. cbn [set_pc p_prog p_k p_pc]. rewrite Aw1. left. reflexivity.
     + left. unfold committed, set_hdr, s0. cbn [s_pos s_span s_len s_type s_body s_seq s_owner].
-      split; [lia |]. left. repeat split; auto; try lia.
-      subst padding. pose proof (mod_range (r_cap R) tl Icap). pose proof (Z.div_mod tl (r_cap R) ltac:(lia)).
-      replace (tl + (r_cap R - tl mod r_cap R)) with ((tl / r_cap R + 1) * r_cap R) by lia. apply Z_mod_mult.
+      split; [lia |]. left. split; [reflexivity |]. split; [| lia].
+      symmetry. apply align8_id. destruct G0 as (_ & _ & _ & G08 & _). exact G08.
     + unfold pc_ok. cbn [set_pc p_pc]. exists typ, body. split; [apply at_write_set_pc; assumption | exact I].
   - (* PHdr *)
     inversion Hstep; subst R' ps' e. clear Hstep.
@@ -712,10 +712,9 @@ Lemma committed_shape cp prods s : geo cp s -> committed cp prods s ->
   0 < s_len s /\ s_span s = align (s_len s) 8 /\
   ((s_type s = PAD /\ is_rec s = false) \/
    (valid_cmd (s_type s) = true /\ is_rec s = true /\ s_len s = Z.of_nat (length (s_body s)) + 8)).
-Proof. intros (_ & _ & _ & Gs8 & _) (Hl & [(A & B & C & D & E) | [(A & B & C & F & G) | (i & ps & A & B & C & D & E & F & G & H)]]).
-  - split; [assumption |]. split.
-    + rewrite B. symmetry. apply align8_id. assumption.
-    + left. split; [assumption |]. unfold is_rec. lia.
+Proof. intros (_ & _ & _ & Gs8 & _) (Hl & [(A & B & E) | [(A & B & C & F & G) | (i & ps & A & B & C & D & E & F & G & H)]]).
+  - split; [assumption |]. split; [assumption |].
+    left. split; [assumption |]. unfold is_rec. lia.
   - split; [assumption |]. split; [rewrite G, F; reflexivity |]. right. split; [assumption |]. split; [unfold is_rec; lia |].
     rewrite F. reflexivity.
   - split; [assumption |]. split; [rewrite G, F; reflexivity |]. right. split; [assumption |]. split; [unfold is_rec; lia |].
